@@ -102,6 +102,9 @@ func (w *wrap) Write(p []byte) (int, error) {
 		return 0, pair.ErrTimeout
 	case "p":
 		return 0, errBoom
+	case "h": // a write deadline that expires after part of the record has gone out
+		n, _ := w.StreamEnd.Write(p[:len(p)/2])
+		return n, pair.ErrTimeout
 	}
 	return w.StreamEnd.Write(p)
 }
@@ -168,6 +171,7 @@ type endpoints struct {
 	uut, peer *tlcp.Conn
 	uw        *wrap
 	pe        *pair.StreamEnd
+	peerObs   []string // what the peer's application read (PR ops)
 }
 
 // setup builds a pair; side = which end is the unit under test. If doHandshake, both handshakes run.
@@ -251,6 +255,27 @@ func runOps(ep *endpoints, ops []string, startIdx int) []string {
 		case op == "H":
 			obs = append(obs, errEnum(ep.uut.Handshake()))
 		// ---- the peer and the transport
+		case strings.HasPrefix(op, "PR"): // the peer's application reads
+			buf := make([]byte, arg(op[2:]))
+			ep.pe.SetReadDeadline(time.Now().Add(80 * time.Millisecond))
+			t0 := time.Now()
+			n, err := ep.peer.Read(buf)
+			ep.pe.SetReadDeadline(time.Time{})
+			e := errEnum(err)
+			if (e == "timeout" || e == "other") && time.Since(t0) > 60*time.Millisecond {
+				e = "block"
+			}
+			switch {
+			case err == nil:
+				ep.peerObs = append(ep.peerObs, "ok."+hx.Hex(buf[:n]))
+			case n > 0:
+				ep.peerObs = append(ep.peerObs, "okerr."+hx.Hex(buf[:n])+"."+e)
+			default:
+				ep.peerObs = append(ep.peerObs, e)
+			}
+		case strings.HasPrefix(op, "pg"): // a record that does not authenticate is injected towards the unit
+			body := pattern(idx, 20)
+			ep.pe.Inject(append([]byte{byte(arg(op[2:])), 1, 1, 0, byte(len(body))}, body...))
 		case strings.HasPrefix(op, "pd"):
 			tlcp.VerifRxWriteRecord(ep.peer, 23, pattern(idx, arg(op[2:])))
 		case strings.HasPrefix(op, "ph"):
@@ -305,6 +330,9 @@ func emitAPI(side, suite string, ops []string) {
 	o := "res=" + strings.Join(obs, ",")
 	if len(obs) == 0 {
 		o = "res=-"
+	}
+	if len(ep.peerObs) > 0 {
+		o += " peer=" + strings.Join(ep.peerObs, ",")
 	}
 	if pan != "" {
 		o += " panic=" + pan
@@ -370,6 +398,30 @@ func phaseAPI(o hx.Opts, r *hx.Rand) {
 			e("wfp", "W3", "wfn", "W3", "CW", "C", "C")
 			e("wft", "CW", "wfn", "CW", "W1", "C")
 			e("wfp", "C", "C", "W1")
+			// write deadlines: the transport reports a timeout having taken nothing (wft) or half of the
+			// record (wfh); the deadline is then cleared (wfn). Every later Write must fail, and the
+			// peer must never be handed a record out of sequence (PR = the peer's application reads).
+			e("wft", "W3", "wfn", "W3", "PR8", "W2", "PR8")
+			e("wft", "W3", "W3", "wfn", "PR8", "W3", "PR8")
+			e("W3", "PR8", "wft", "W5", "wfn", "W5", "PR8", "PR8")
+			e("wfh", "W40", "wfn", "W3", "PR8", "W3")
+			e("W2", "wfh", "W9", "wfn", "W1", "CW", "C")
+			e("wft", "W3", "wfn", "CW", "W1", "C", "PR8")
+			e("wfp", "W3", "wfn", "W3", "PR8")
+			e("wft", "W0", "W3", "wfn", "W0", "W3", "PR8")
+			// the unit has half-closed (CloseWrite) and then receives bad input: the error must still be
+			// reported, latched, and the alert sent
+			w17 := append(append([]string{"CW"}, w16...), "pa1.90", "pd2", "R5", "R5")
+			e(w17...)
+			e("CW", "pg23", "R5", "R5", "pd3", "R5", "W1")
+			e("CW", "pd2", "pg21", "pd3", "R5", "R5", "R5", "PR8", "PR8")
+			e("CW", "pa3.90", "R5", "R5", "pd2", "R5", "PR8", "PR8")
+			e("CW", "ph5", "R5", "R5", "PR8", "PR8")
+			e("CW", "tx7.3", "R5", "R5")
+			e("CW", "pa2.40", "R5", "R5", "W1")
+			e("CW", "pg22", "pg23", "pd4", "R5", "R5", "C", "R5")
+			e("pg23", "R5", "R5", "pd3", "R5", "W1", "PR8")
+			e("pd2", "pg22", "R5", "R5", "R5")
 			e("W0", "R0", "C", "R0", "W0")
 			e("ph5", "pd2", "R5", "R5", "W1")
 		}
@@ -394,8 +446,10 @@ func phaseAPI(o hx.Opts, r *hx.Rand) {
 			}
 			x := r.Intn(100)
 			switch {
-			case x < 22:
+			case x < 20:
 				ops = append(ops, "R"+strconv.Itoa(hx.Pick(r, []int{0, 1, 2, 5, 64})))
+			case x < 22:
+				ops = append(ops, "PR8")
 			case x < 34:
 				ops = append(ops, "W"+strconv.Itoa(hx.Pick(r, []int{0, 1, 3, 40})))
 			case x < 40:
@@ -424,8 +478,13 @@ func phaseAPI(o hx.Opts, r *hx.Rand) {
 			case x < 94:
 				ops = append(ops, "tp")
 				ended = true
+			case x < 96:
+				ops = append(ops, "wf"+hx.Pick(r, []string{"t", "p", "n", "h", "n"}))
 			case x < 97:
-				ops = append(ops, "wf"+hx.Pick(r, []string{"t", "p", "n"}))
+				ops = append(ops, "pg"+strconv.Itoa(hx.Pick(r, []int{21, 22, 23})))
+				ended = true // what follows a forgery is never looked at
+			case x < 98:
+				ops = append(ops, "PR8")
 			default:
 				ops = append(ops, "ph"+strconv.Itoa(1+r.Intn(5)))
 			}
